@@ -2868,6 +2868,7 @@ static void vbi_proxyd_handle_client_sockets( fd_set * rd, fd_set * wr )
          if (proxy.dev[dev_idx].p_capture != NULL)
             vbi_proxyd_channel_update(dev_idx, NULL, FALSE);
          free(tmp);
+         VERIF_STATE("gone", -1);
       }
       else
       {
